@@ -145,6 +145,9 @@ var issuerKeys = map[string][2]string{
 	"p384": {"p384-0", "p384-1"}, "ed25519": {"ed25519-0", "ed25519-1"},
 	// RSA issuers whose certificates carry a valid but non-canonical SubjectPublicKeyInfo (no NULL parameters)
 	"rsa2048-spki-without-null": {"rsa2048-0~nonull", "rsa2048-1~nonull"},
+	// the precert signing certificate carries the very name of the CA that issued it (another key): the issuer name of a
+	// precertificate it signs needs no change, its authority key identifier does
+	"p256-signing-cert-named-like-its-issuer": {"p256-5", "p256-6"},
 }
 
 var (
@@ -166,6 +169,9 @@ func newIssuer(kind string, nameIdx int, root *pki.Cert) *issuer {
 	is := &issuer{kind: kind, root: root, caKey: pki.LoadKey(ks[0]), preKey: pki.LoadKey(ks[1])}
 	is.nameLbl, is.caName = nameVariant(nameIdx, "Issuing CA "+kind)
 	_, is.preName = nameVariant((nameIdx+1)%3, "Precert Signing "+kind)
+	if strings.HasSuffix(kind, "named-like-its-issuer") {
+		is.preName = is.caName
+	}
 	h := is.caKey.KeyHash()
 	is.caKeyID = h[:20]
 	h = is.preKey.KeyHash()
